@@ -34,9 +34,12 @@ def check(ctx: Ctx) -> None:
         "inverse map is the exact inversion comprehension built after the last insertion; encode/decode are plain look-ups in "
         "the two maps; TPL4 every vocabulary part kind has a detokenise branch that reads only the fields the part provides, "
         "each through int(); NK2 every numeric field formatted into a token is int-kinded on both sides (so `int(field)` "
-        "parses and no decimal point is rendered). Assumes duplicate-free configuration lists.")
+        "parses and no decimal point is rendered); DISTINCT the velocity values the vocabulary iterates are de-duplicated (the bin "
+        "producer clamps to the maximum, so several bins can carry the same value). Assumes duplicate-free user-supplied lists.")
     ctx.assumptions += ["user-supplied step sizes / note values contain no duplicates and are non-negative integers",
-                        "bin_velocity returns a valid index into the bin list (numeric, not decided)"]
+                        "velocities of the input do not exceed the configured maximum"]
+    from ..engines.velbins import distinct_rule
+    distinct_rule(ctx)
 
     # ---------------- TPL1 over all flag assignments
     n_assign = 0
